@@ -949,7 +949,7 @@ func (v *Dumper) StmtUseDeclaration(n *ast.StmtUse) {
 	v.dumpPosition(n.Position)
 	v.dumpVertex("Type", n.Type)
 	v.dumpToken("NsSeparatorTkn", n.NsSeparatorTkn)
-	v.dumpVertex("Uses", n.Use)
+	v.dumpVertex("Use", n.Use)
 	v.dumpToken("AsTkn", n.AsTkn)
 	v.dumpVertex("Alias", n.Alias)
 
